@@ -1,16 +1,16 @@
 """C02 — flow decompositions explain every non-ignored edge's flow exactly."""
-from contracts import c02, sw
+from contracts import c02, sw, enc
 
 LEVEL = "other"
 TRUSTED = [sw.A1]
 ASSUMPTIONS = [sw.A3]
-EXPLANATION = ("Proved (PyVC, unbounded): the linearisation helpers are exact (C12) and get_solution returns one weight per route of the requested numeric type. "
+EXPLANATION = ("Proved (PyVC, unbounded): the ENCODERS kFlowDecomp / kFlowDecompCycles._encode_flow_decomposition add exactly the rows  sum_i pi(e,i) = flow(e), pi(e,i) = x(e,i)*w(i)  on every non-ignored edge, for every assignment of the columns (sound and complete, contracts/enc.py); the linearisation helpers are exact (C12) and get_solution returns one weight per route of the requested numeric type. "
                "Bounded, solver-independent (SymMILP): for each enumerated instance z3 proves that EVERY assignment admitted by the MILP the real encoder built explains every non-ignored edge exactly. "
                "Bounded (RC): exact recomputation from the returned routes and weights on the small universe, greedy and MILP routes, node-weighted input, ignored elements.")
 
 
 def units(tier):
-    return c02.all_units() + [u for u in sw.all_units() if "product" in u.name]
+    return c02.all_units() + [u for u in enc.all_units() if "C02" in u.props] + [u for u in sw.all_units() if "product" in u.name]
 
 
 def bounded(tier, seed):
